@@ -29,7 +29,16 @@ RootSeq ==
     \o [i \in DOMAIN Reqs |-> Root("request", Reqs[i].method)]
     \o [i \in DOMAIN Reqs |-> Root("response", Reqs[i].method)]
     \o [i \in DOMAIN Notifs |-> Root("notification", Notifs[i].method)]
-KindOK(r) == RootSel = "all" \/ RootSel = r.kind
+\* does a type contain a union with at least two non-null alternatives (directly or in a container)?
+RECURSIVE HasRealUnion(_)
+HasRealUnion(t) == CASE t.kind = "or" -> Cardinality({i \in DOMAIN t.items : ~IsNullT(t.items[i])}) >= 2
+                                          \/ \E i \in DOMAIN t.items : HasRealUnion(t.items[i])
+                     [] t.kind = "array" -> HasRealUnion(t.element)
+                     [] t.kind = "map" -> HasRealUnion(t.value)
+                     [] t.kind = "reference" /\ t.name \in AName /\ t.name # "LSPAny" -> HasRealUnion(ADef[t.name].type)
+                     [] OTHER -> FALSE
+UnionHolder(r) == r.kind = "structure" /\ \E i \in DOMAIN FlatM[r.name] : HasRealUnion(FlatM[r.name][i].type)
+KindOK(r) == RootSel = "all" \/ RootSel = r.kind \/ (RootSel = "unionholder" /\ UnionHolder(r))
 Roots == {RootSeq[i] : i \in {i \in DOMAIN RootSeq : i % NShards = Shard /\ KindOK(RootSeq[i])}}
 
 (***************************************************************************)
@@ -53,9 +62,10 @@ BaseAlpha(b) == CASE b \in StringBases -> [i \in DOMAIN StrAlpha |-> JStr(StrAlp
                   [] b = "null" -> <<JNull>>
 
 EnumNode(e, val) == IF EnumBase(e) = "string" THEN JStr(val) ELSE JInt(val)
+\* custom values of an open enumeration: an ordinary one and a falsy one (when not declared)
+CustomVals(e) == (IF EnumBase(e) = "string" THEN {CustomStr, ""} ELSE {CustomInt, 0}) \ EnumVals(e)
 EnumAlpha(e) == {OEnum(e, EnumNode(e, val)) : val \in EnumVals(e)}
-                \cup (IF PyOpen(e) THEN {OEnum(e, EnumNode(e, IF EnumBase(e) = "string" THEN CustomStr ELSE CustomInt))}
-                      ELSE {})
+                \cup (IF PyOpen(e) THEN {OEnum(e, EnumNode(e, val)) : val \in CustomVals(e)} ELSE {})
 
 (***************************************************************************)
 (* Minimal instance of a type: required properties only, first union       *)
